@@ -213,6 +213,9 @@ def check_results(ctx, results, model, impl):
                 fa, fb = a.get('adv', '').split(','), b.get('adv', '').split(',')
                 if any(x != y and x != '-1' for x, y in zip(fa, fb)):
                     adv_mismatch += 1
+                if '-1' in fa and not getattr(ctx, '_absent_noted', False):
+                    ctx._absent_noted = True
+                    ctx.notes.append('advisory: some private members (state_/next_byte_index_/current_message_size_/capacity_bytes_/buffer_) no longer exist under these names; their comparison is skipped')
         if bad is not None or len(isegs) != len(msegs):
             ctx.broken_correspondence('RTCM framer model and implementation differ at operation %s' % bad, {'line': line, 'impl': i, 'model': m, 'spec': s})
         if isegs and isegs[-1].get('errors') is not None and msegs[-1].get('errors') is not None and isegs[-1].get('errors') != msegs[-1].get('errors'):
@@ -225,6 +228,13 @@ def run(ctx):
     ctx.notes.append('generated constants: %r' % consts)
     if not ctx.coq():
         ctx.broken_proof()
+    if ctx.thorough:
+        rc, so, se = vf.sh('timeout 1500 coqchk -silent -o -R theories FEC FEC.Properties.%s' % PID, cwd=vf.COQ, timeout=1600)
+        txt = ' '.join((so + se).split())
+        okc = rc == 0 and 'Axioms: <none>' in txt
+        ctx.obligation('coqchk -o on the .vo closure of Properties/%s: checked, no axioms' % PID, okc, 'coqchk', txt[-400:])
+        if not okc:
+            ctx.broken_proof('coqchk failed or reports axioms')
     ctx.log('coq done'); model, impl = build(ctx); ctx.log('runners built')
     r = ctx.rng
     cases = []
@@ -235,7 +245,7 @@ def run(ctx):
             c['tokens'] = [bytes.fromhex(t) for t in c['tokens']]
             cases.append(c)
     cases += systematic_cases(r, ctx.thorough)
-    n = 40000 if ctx.thorough else 6000
+    n = 150000 if ctx.thorough else 20000
     cases += [gen_case(r, ctx.thorough) for _ in range(n)]
     # CRC agreement: extracted table-driven CRC24Hash model = extracted bit-serial CRC-24Q = Python bit-serial
     crcs = [bytes(r.getrandbits(8) for _ in range(r.randint(0, 64))) for _ in range(300)]
